@@ -26,20 +26,27 @@ import (
 
 // ClientCfg describes the mail.Client under test.
 type ClientCfg struct {
-	Host        string   `json:"host,omitempty"`      // default mx.sim.example
-	TLSPolicy   string   `json:"tlsPolicy,omitempty"` // mandatory (library default) | opportunistic | none | implicit
-	AuthType    string   `json:"authType,omitempty"`  // "" = none; a go-mail SMTPAuthType; or CUSTOM-PLAIN / CUSTOM-LOGIN
-	User        string   `json:"user,omitempty"`
-	Pass        string   `json:"pass,omitempty"`
-	HELO        string   `json:"helo,omitempty"`
-	TimeoutMs   int      `json:"timeoutMs,omitempty"`
-	DSN         bool     `json:"dsn,omitempty"`
-	DSNRet      string   `json:"dsnRet,omitempty"`
-	DSNNotify   []string `json:"dsnNotify,omitempty"`
-	NoNoop      bool     `json:"noNoop,omitempty"`
-	Debug       bool     `json:"debug,omitempty"`
-	LogAuthData bool     `json:"logAuthData,omitempty"`
-	Logger      string   `json:"logger,omitempty"` // capture | std | json
+	Host      string   `json:"host,omitempty"`      // default mx.sim.example
+	TLSPolicy string   `json:"tlsPolicy,omitempty"` // mandatory (library default) | opportunistic | none | implicit
+	AuthType  string   `json:"authType,omitempty"`  // "" = none; a go-mail SMTPAuthType; or CUSTOM-PLAIN / CUSTOM-LOGIN
+	User      string   `json:"user,omitempty"`
+	Pass      string   `json:"pass,omitempty"`
+	HELO      string   `json:"helo,omitempty"`
+	TimeoutMs int      `json:"timeoutMs,omitempty"`
+	DSN       bool     `json:"dsn,omitempty"`
+	DSNRet    string   `json:"dsnRet,omitempty"`
+	DSNNotify []string `json:"dsnNotify,omitempty"`
+	NoNoop    bool     `json:"noNoop,omitempty"`
+	// PolicyVia: the way the TLS policy reaches the Client. "" = WithTLSPolicy (WithTLSPortPolicy
+	// when FallbackPort) at construction; "setter" = constructed with a weaker policy, then
+	// SetTLSPolicy; "port-setter" = WithPort(2525) and a weaker policy, then SetTLSPortPolicy;
+	// "port-option" = WithPort(2525) followed by WithTLSPortPolicy; "twice" = WithTLSPortPolicy
+	// with a weaker policy (which moves the port) followed by WithTLSPortPolicy. In every case
+	// the policy in force is TLSPolicy.
+	PolicyVia   string `json:"policyVia,omitempty"`
+	Debug       bool   `json:"debug,omitempty"`
+	LogAuthData bool   `json:"logAuthData,omitempty"`
+	Logger      string `json:"logger,omitempty"` // capture | std | json
 	// FallbackPort configures the TLS policy through WithTLSPortPolicy, which also sets a
 	// fallback port that is dialled when the first dial fails.
 	FallbackPort bool `json:"fallbackPort,omitempty"`
@@ -62,22 +69,51 @@ func (c ClientCfg) timeout() time.Duration {
 // BuildClient creates the real mail.Client for a configuration.
 func BuildClient(c ClientCfg, dial mail.DialContextFunc, logger mlog.Logger) (*mail.Client, error) {
 	opts := []mail.Option{mail.WithDialContextFunc(dial), mail.WithPort(25), mail.WithTimeout(c.timeout())}
-	switch c.TLSPolicy {
-	case "", "mandatory":
+	var after func(*mail.Client)
+	if c.PolicyVia != "" {
+		var target, weaker mail.TLSPolicy
+		switch c.TLSPolicy {
+		case "", "mandatory":
+			target, weaker = mail.TLSMandatory, mail.NoTLS
+		case "opportunistic":
+			target, weaker = mail.TLSOpportunistic, mail.NoTLS
+		case "none":
+			target, weaker = mail.NoTLS, mail.TLSOpportunistic
+		default:
+			return nil, fmt.Errorf("PolicyVia with TLS policy %q", c.TLSPolicy)
+		}
+		switch c.PolicyVia {
+		case "setter":
+			opts = append(opts, mail.WithTLSPolicy(weaker))
+			after = func(cl *mail.Client) { cl.SetTLSPolicy(target) }
+		case "port-setter":
+			opts = append(opts, mail.WithPort(2525), mail.WithTLSPolicy(weaker))
+			after = func(cl *mail.Client) { cl.SetTLSPortPolicy(target) }
+		case "port-option":
+			opts = append(opts, mail.WithPort(2525), mail.WithTLSPortPolicy(target))
+		case "twice":
+			opts = append(opts, mail.WithTLSPortPolicy(weaker), mail.WithTLSPortPolicy(target))
+		default:
+			return nil, fmt.Errorf("unknown PolicyVia %q", c.PolicyVia)
+		}
+	}
+	switch {
+	case c.PolicyVia != "":
+	case c.TLSPolicy == "" || c.TLSPolicy == "mandatory":
 		if c.FallbackPort {
 			opts = append(opts, mail.WithTLSPortPolicy(mail.TLSMandatory))
 		} else {
 			opts = append(opts, mail.WithTLSPolicy(mail.TLSMandatory))
 		}
-	case "opportunistic":
+	case c.TLSPolicy == "opportunistic":
 		if c.FallbackPort {
 			opts = append(opts, mail.WithTLSPortPolicy(mail.TLSOpportunistic))
 		} else {
 			opts = append(opts, mail.WithTLSPolicy(mail.TLSOpportunistic))
 		}
-	case "none":
+	case c.TLSPolicy == "none":
 		opts = append(opts, mail.WithTLSPolicy(mail.NoTLS))
-	case "implicit":
+	case c.TLSPolicy == "implicit":
 		opts = append(opts, mail.WithSSL())
 	default:
 		return nil, fmt.Errorf("unknown TLS policy %q", c.TLSPolicy)
@@ -123,7 +159,11 @@ func BuildClient(c ClientCfg, dial mail.DialContextFunc, logger mlog.Logger) (*m
 	if c.LogAuthData {
 		opts = append(opts, mail.WithLogAuthData())
 	}
-	return mail.NewClient(c.host(), opts...)
+	cl, err := mail.NewClient(c.host(), opts...)
+	if err == nil && after != nil {
+		after(cl)
+	}
+	return cl, err
 }
 
 // ---------- messages ----------
